@@ -409,7 +409,7 @@ theorem range_patch_lookup {cmp : Bytes → Bytes → Ordering} (ol : OrdLaws cm
   rw [hto] at this ⊢
   exact this
 
-/-! ### the range-patch part: R3 proved, R2's interval tests proved, R1 and the rest of R2 as named hypotheses -/
+/-! ### the range-patch part: R3 and R2 proved, R1 as the one named hypothesis (proved for single-leaf trees) -/
 
 /-- **R3 — apply_tiled_stream** (proved): `ApplyPatches` over any *tiled* stream of point and range
 patches (`Tiles`: every patch well-formed — a range patch carries strictly ascending pairs inside
@@ -603,18 +603,40 @@ def R1_GeneratorSound (cmp : Bytes → Bytes → Ordering) : Prop :=
     pgFromRoots base x = .ok d →
     ∃ Inv, GenSound cmp store fuel base.flatten x.flatten Inv ∧ Inv d .start
 
-/-- **R2 (named hypothesis)**: over two sound generators, `SendPatches` (all four level combinations,
-the same-address shortcut, split-first / split-both, `getNextAndSplitIfAtEnd`) emits a stream that
-denotes the key-wise merge.  Proved here: the interval tests of its range branches
-(`sendPatches_interval_tests`) and the whole loop for point-only streams (`sendPatches_leaf`); open:
-preservation of "the output so far is the merge below the frontier" through the range branches. -/
-def R2_SendPatchesSound (cmp : Bytes → Bytes → Ordering) (collide : Collide) : Prop :=
-  ∀ (store : Addr → Option Tree) (fuel : Nat) (B L R : List KV) (ld rd : PG) (InvL InvR : PG → GenPos → Prop)
-    (ps : List Patch) (cs : List Collision),
-    Sorted cmp B → Sorted cmp L → Sorted cmp R →
-    GenSound cmp store fuel B L InvL → GenSound cmp store fuel B R InvR → InvL ld .start → InvR rd .start →
-    sendPatches cmp collide fuel ld rd = .ok (ps, cs) →
-    StreamDenotesMerge cmp collide B L R ps cs
+/-- **R2_SendPatchesSound** (proved): over two generators with `GenSound` invariants and a byte-exact
+key order, `SendPatches` (all four level combinations: the interval tests, the same-`To` shortcut,
+split-first / split-both, `getNextAndSplitIfAtEnd`, the final drain) emits a stream that denotes the
+key-wise merge: it is tiled, gives every key the merge's value, and hands the handler exactly the
+merge's collisions in ascending key order.  Loop invariant (`J` with its collision part `K`, in
+`Lemmas/ProllyMergeSendR2`): what has been sent is tiled and ends before right's current patch; at and
+after the start of left's current patch nothing sent changes left's mapping; every key below both
+current patches has the merge's value and its collision (if any) has been handed out; for a key in
+`[rightStart, leftStart)` the merge is right's mapping, in `[leftStart, rightStart)` left's, with no
+collision in either. -/
+theorem R2_SendPatchesSound {cmp : Bytes → Bytes → Ordering} (ol : OrdLaws cmp) (hexact : ∀ a b, cmp a b = .eq → a = b)
+    (collide : Collide) (store : Addr → Option Tree) (fuel : Nat) (B L R : List KV) (ld rd : PG)
+    (InvL InvR : PG → GenPos → Prop) (ps : List Patch) (cs : List Collision)
+    (sb : Sorted cmp B) (sl : Sorted cmp L) (sr : Sorted cmp R)
+    (gl : GenSound cmp store fuel B L InvL) (gr : GenSound cmp store fuel B R InvR)
+    (hil : InvL ld .start) (hir : InvR rd .start)
+    (h : sendPatches cmp collide fuel ld rd = .ok (ps, cs)) :
+    StreamDenotesMerge cmp collide B L R ps cs := by
+  obtain ⟨h1, h2, h3, h4⟩ :=
+    sendPatches_value ⟨ol, hexact, collide, store, fuel, B, L, R, sb, sl, sr, InvL, InvR, gl, gr⟩ ld rd hil hir ps cs h
+  exact ⟨h1, h2, h3, h4⟩
+
+/-- **R2_over_R1_leaf** (proved; shows the `GenSound` interface of R2 is inhabited and the two parts
+compose): feeding the invariants `R1_leaf` constructs into the general `R2_SendPatchesSound` gives
+`StreamDenotesMerge` for every `SendPatches` run over generators of sorted single-leaf trees. -/
+theorem R2_over_R1_leaf {cmp : Bytes → Bytes → Ordering} (ol : OrdLaws cmp) (hexact : ∀ a b, cmp a b = .eq → a = b)
+    (collide : Collide) (fuel : Nat) (kb kl kr : List KV)
+    (sb : Sorted cmp kb) (sl : Sorted cmp kl) (sr : Sorted cmp kr) (ld rd : PG)
+    (hld : pgFromRoots (.leaf kb) (.leaf kl) = .ok ld) (hrd : pgFromRoots (.leaf kb) (.leaf kr) = .ok rd)
+    (ps : List Patch) (cs : List Collision) (h : sendPatches cmp collide fuel ld rd = .ok (ps, cs)) :
+    StreamDenotesMerge cmp collide kb kl kr ps cs := by
+  obtain ⟨InvL, gl, il⟩ := R1_leaf ol fuel kb kl sb sl ld hld
+  obtain ⟨InvR, gr, ir⟩ := R1_leaf ol fuel kb kr sb sr rd hrd
+  exact R2_SendPatchesSound ol hexact collide _ fuel kb kl kr ld rd InvL InvR ps cs sb sl sr gl gr il ir h
 
 /-- **sendPatches_interval_tests** (the proved part of R2): the comparisons the range branches of
 `SendPatches` make decide interval overlap correctly — `left.EndKey ≤ right.KeyBelowStart` (nil as
@@ -634,11 +656,11 @@ theorem sendPatches_interval_tests {cmp : Bytes → Bytes → Ordering} (ol : Or
    fun x r hr => point_range_decision ol x hr,
    fun store a b ta tb ha hb h => same_address_same_pairs ha hb h⟩
 
-/-- **patch_merge_refines_of_R1_R2**: `patch_merge_refines` (content = key-wise merge at every key,
-collisions = the specification's in key order) for ALL well-formed trees follows from R1 ∧ R2 — R3
-(`apply_tiled_stream`) is proved. -/
-theorem patch_merge_refines_of_R1_R2 {cmp : Bytes → Bytes → Ordering} (ol : OrdLaws cmp) (collide : Collide)
-    (r1 : R1_GeneratorSound cmp) (r2 : R2_SendPatchesSound cmp collide)
+/-- **patch_merge_refines_of_R1**: `patch_merge_refines` (content = key-wise merge at every key,
+collisions = the specification's in key order) for ALL well-formed trees under a byte-exact key order
+follows from R1 alone — R2 (`R2_SendPatchesSound`) and R3 (`apply_tiled_stream`) are proved. -/
+theorem patch_merge_refines_of_R1 {cmp : Bytes → Bytes → Ordering} (ol : OrdLaws cmp) (hexact : ∀ a b, cmp a b = .eq → a = b)
+    (collide : Collide) (r1 : R1_GeneratorSound cmp)
     (store : Addr → Option Tree) (base left right : Tree)
     (hb : base.WF store) (hl : left.WF store) (hr : right.WF store)
     (kb : base.KeysOK) (kl : left.KeysOK) (kr : right.KeysOK)
@@ -668,60 +690,9 @@ theorem patch_merge_refines_of_R1_R2 {cmp : Bytes → Bytes → Ordering} (ol : 
         obtain ⟨rfl, rfl, rfl⟩ := h
         obtain ⟨InvL, gl, il⟩ := r1 store (mergeFuel base left right) base left ld hb hl kb kl sb sl h1
         obtain ⟨InvR, gr, ir⟩ := r1 store (mergeFuel base left right) base right rd hb hr kb kr sb sr h2
-        have sd := r2 store (mergeFuel base left right) base.flatten left.flatten right.flatten ld rd InvL InvR ps' cs'
-          sb sl sr gl gr il ir h3
+        have sd := R2_SendPatchesSound ol hexact collide store (mergeFuel base left right) base.flatten left.flatten
+          right.flatten ld rd InvL InvR ps' cs' sb sl sr gl gr il ir h3
         exact patch_merge_refines_of_stream ol collide _ _ _ sl ps' cs' sd
-
-/-- **R2_value** (proved — the value half of R2): over two generators with `GenSound` invariants and a
-byte-exact key order, the stream `SendPatches` emits (all four level combinations: the interval tests,
-the same-`To` shortcut, split-first / split-both, `getNextAndSplitIfAtEnd`, the final drain) is tiled
-and gives every key the value of the key-wise merge.  Loop invariant (`J`): what has been sent is tiled
-and ends before right's current patch; at and after the start of left's current patch nothing sent
-changes left's mapping; every key below both current patches has the merge's value; for a key in
-`[rightStart, leftStart)` the merge is right's mapping, in `[leftStart, rightStart)` left's. -/
-theorem R2_value {cmp : Bytes → Bytes → Ordering} (ol : OrdLaws cmp) (hexact : ∀ a b, cmp a b = .eq → a = b)
-    (collide : Collide) (store : Addr → Option Tree) (fuel : Nat) (B L R : List KV)
-    (sb : Sorted cmp B) (sl : Sorted cmp L) (sr : Sorted cmp R) (InvL InvR : PG → GenPos → Prop)
-    (gl : GenSound cmp store fuel B L InvL) (gr : GenSound cmp store fuel B R InvR) (ld rd : PG)
-    (hil : InvL ld .start) (hir : InvR rd .start) (ps : List Patch) (cs : List Collision)
-    (h : sendPatches cmp collide fuel ld rd = .ok (ps, cs)) :
-    Tiles cmp ps ∧ ∀ k, patchedValue cmp ps L k = (mergeKey collide (lookupKV cmp k B) (lookupKV cmp k L) (lookupKV cmp k R)).1 :=
-  sendPatches_value ⟨ol, hexact, collide, store, fuel, B, L, R, sb, sl, sr, InvL, InvR, gl, gr⟩ ld rd hil hir ps cs h
-
-/-- **patch_merge_content_of_R1**: the content half of `patch_merge_refines` — for ALL well-formed trees
-the merged content is strictly ascending and maps every key to the key-wise merge — now depends on
-R1 only (R2's value half and R3 are proved). -/
-theorem patch_merge_content_of_R1 {cmp : Bytes → Bytes → Ordering} (ol : OrdLaws cmp) (hexact : ∀ a b, cmp a b = .eq → a = b)
-    (collide : Collide) (r1 : R1_GeneratorSound cmp)
-    (store : Addr → Option Tree) (base left right : Tree)
-    (hb : base.WF store) (hl : left.WF store) (hr : right.WF store)
-    (kb : base.KeysOK) (kl : left.KeysOK) (kr : right.KeysOK)
-    (sb : Sorted cmp base.flatten) (sl : Sorted cmp left.flatten) (sr : Sorted cmp right.flatten)
-    (content : List KV) (ps : List Patch) (cs : List Collision)
-    (h : threeWayMerge cmp collide base left right = .ok (content, ps, cs)) :
-    Sorted cmp content ∧
-    (∀ k, lookupKV cmp k content =
-      (mergeKey collide (lookupKV cmp k base.flatten) (lookupKV cmp k left.flatten) (lookupKV cmp k right.flatten)).1) := by
-  unfold threeWayMerge at h
-  simp only [bind, Except.bind] at h
-  cases h1 : pgFromRoots base left with
-  | error e => simp [h1] at h
-  | ok ld =>
-    cases h2 : pgFromRoots base right with
-    | error e => simp [h1, h2] at h
-    | ok rd =>
-      simp only [h1, h2] at h
-      cases h3 : sendPatches cmp collide (mergeFuel base left right) ld rd with
-      | error e => simp [h3] at h
-      | ok res =>
-        obtain ⟨ps', cs'⟩ := res
-        simp [h3, pure, Except.pure] at h
-        obtain ⟨rfl, rfl, rfl⟩ := h
-        obtain ⟨InvL, gl, il⟩ := r1 store (mergeFuel base left right) base left ld hb hl kb kl sb sl h1
-        obtain ⟨InvR, gr, ir⟩ := r1 store (mergeFuel base left right) base right rd hb hr kb kr sb sr h2
-        obtain ⟨ht, hv⟩ := R2_value ol hexact collide store _ _ _ _ sb sl sr InvL InvR gl gr ld rd il ir ps' cs' h3
-        obtain ⟨s1, s2⟩ := apply_tiled_stream ol ps' left.flatten sl ht
-        exact ⟨s1, fun k => by rw [s2 k, hv k]⟩
 
 /-! ### statements that are compared by the harness, not proved -/
 
